@@ -31,23 +31,16 @@ Empty == [X |-> [k \in Ids |-> No], Y |-> [k \in Ids |-> No]]
 Other(e) == IF e = "X" THEN "Y" ELSE "X"
 Ev(op, e, k, r, out) == [op |-> op, e |-> e, k |-> k, r |-> r, out |-> out]
 
-Init == db = Empty /\ cur = Empty /\ new = {} /\ sess = "none" /\ ev = Ev("Init", "-", 0, 0, "ok")
+(* seeded databases, so that stored objects meet new ones within few calls *)
+Row(r) == [ex |-> TRUE, r |-> r]
+Seeds == {Empty,
+          [Empty EXCEPT !.X[1] = Row(0)],
+          [Empty EXCEPT !.X[1] = Row(0), !.Y[1] = Row(1)],
+          [Empty EXCEPT !.X[1] = Row(1), !.Y[1] = Row(0)]}
+Init == db \in Seeds /\ cur = db /\ new = {} /\ sess = "none" /\ ev = Ev("Init", "-", 0, 0, "ok")
 
 Begin == /\ sess = "none" /\ sess' = "open" /\ cur' = db /\ new' = {}
          /\ ev' = Ev("Begin", "-", 0, 0, "ok") /\ UNCHANGED db
-
-(* e(id=k, ref=r) *)
-Create(e, k, r) == /\ sess = "open" /\ ~cur[e][k].ex
-                   /\ (r # 0 => cur[Other(e)][r].ex)
-                   /\ cur' = [cur EXCEPT ![e][k] = [ex |-> TRUE, r |-> r]]
-                   /\ new' = new \cup {<<e, k>>}
-                   /\ ev' = Ev("Create", e, k, r, "ok") /\ UNCHANGED <<db, sess>>
-
-(* obj.ref = r *)
-SetRef(e, k, r) == /\ sess = "open" /\ cur[e][k].ex /\ cur[e][k].r # r
-                   /\ (r # 0 => cur[Other(e)][r].ex)
-                   /\ cur' = [cur EXCEPT ![e][k].r = r]
-                   /\ ev' = Ev("SetRef", e, k, r, "ok") /\ UNCHANGED <<db, new, sess>>
 
 (* a new object must be inserted after the new object it references *)
 Needs(o) == LET r == cur[o[1]][o[2]].r IN IF r # 0 /\ <<Other(o[1]), r>> \in new THEN {<<Other(o[1]), r>>} ELSE {}
@@ -55,12 +48,36 @@ RECURSIVE Reach(_, _)
 Reach(S, n) == IF n = 0 THEN S ELSE Reach(S \cup UNION {Needs(o) : o \in S}, n - 1)
 Cyclic == \E o \in new : o \in Reach(Needs(o), 2 * Cardinality(Ids))
 
+(* any call may first flush implicitly (a lookup that misses the cache); with an unorderable cycle pending that
+   flush raises inside the call and the transaction cannot go on *)
+EarlyCyclic(op, e, k, r) == /\ Cyclic
+                            /\ sess' = "aborted" /\ ev' = Ev(op, e, k, r, "Cyclic")
+                            /\ UNCHANGED <<db, cur, new>>
+
+(* e(id=k, ref=r) *)
+Create(e, k, r) == /\ sess = "open" /\ ~cur[e][k].ex
+                   /\ (r # 0 => cur[Other(e)][r].ex)
+                   /\ \/ /\ cur' = [cur EXCEPT ![e][k] = [ex |-> TRUE, r |-> r]]
+                         /\ new' = new \cup {<<e, k>>}
+                         /\ ev' = Ev("Create", e, k, r, "ok") /\ UNCHANGED <<db, sess>>
+                      \/ EarlyCyclic("Create", e, k, r)
+
+(* obj.ref = r *)
+SetRef(e, k, r) == /\ sess = "open" /\ cur[e][k].ex /\ cur[e][k].r # r
+                   /\ (r # 0 => cur[Other(e)][r].ex)
+                   /\ \/ /\ cur' = [cur EXCEPT ![e][k].r = r]
+                         /\ ev' = Ev("SetRef", e, k, r, "ok") /\ UNCHANGED <<db, new, sess>>
+                      \/ EarlyCyclic("SetRef", e, k, r)
+
 (* leaving the db_session normally: flush + commit *)
-End == /\ sess = "open"
-       /\ \/ /\ ~Cyclic /\ db' = cur /\ ev' = Ev("End", "-", 0, 0, "ok")
-          \/ /\ Cyclic /\ db' = db /\ ev' = Ev("End", "-", 0, 0, "Cyclic")
-          \/ /\ Cyclic /\ db' = cur /\ ev' = Ev("End", "-", 0, 0, "ok")
-       /\ sess' = "none" /\ new' = {} /\ UNCHANGED cur
+End == \/ /\ sess = "open"
+          /\ \/ /\ ~Cyclic /\ db' = cur /\ ev' = Ev("End", "-", 0, 0, "ok")
+             \/ /\ Cyclic /\ db' = db /\ ev' = Ev("End", "-", 0, 0, "Cyclic")
+             \/ /\ Cyclic /\ db' = cur /\ ev' = Ev("End", "-", 0, 0, "ok")
+          /\ sess' = "none" /\ new' = {} /\ UNCHANGED cur
+       \/ /\ sess = "aborted"      \* the program caught the error and leaves normally: nothing may be committed
+          /\ \E out \in {"ok", "Cyclic", "Integrity"} : ev' = Ev("End", "-", 0, 0, out)
+          /\ sess' = "none" /\ new' = {} /\ UNCHANGED <<db, cur>>
 
 Next == \/ Begin \/ End
         \/ \E e \in {"X", "Y"}, k \in Ids, r \in Ids \cup {0} : Create(e, k, r) \/ SetRef(e, k, r)
